@@ -9,7 +9,7 @@ from __future__ import annotations
 
 WORDS = ["alpha", "beta", "Gamma", "ÄÖÜ", "ñandú", "日本", "x1", "a:b", "c#d", "e@f", "g|h", "\"q\"", "'s'", "(p)", "100%",
          "given", "and", "then", "feature:", "-", "*star", "<lt", "gt>", "&amp;", "\\n", "tab\there", "Ω"]
-TAGWORDS = ["a", "b", "wip", "x.y", "k=v", "slow:3", "ÄÖ", "t-1", "@at", "use.with_os=linux", "p(1)", "q;r", "<x>"]
+TAGWORDS = ["a", "b", "wip", "x.y", "k=v", "slow:3", "ÄÖ", "t-1", "@at", "use.with_os=linux", "p(1)", "q;r", "<x>", "bug#42", "i#"]
 STEP_TYPES = ("given", "when", "then", "and", "but")
 
 
